@@ -619,7 +619,9 @@ def check_iter(res, facts):
 
     def on_inner(x, name):
         return callname(x) == name and peel(x[2][0]) == inner
-    alts = ret_alts(b, facts)
+    from .flow import allow_stale_guards
+    with allow_stale_guards():      # the conditions under which the byte was read (before the advance that follows); their freshness at the read is C9's clause
+        alts = ret_alts(b, facts)
     probs = []
     kinds = set()
     for bi, e, rels in alts:
